@@ -32,6 +32,7 @@ type ParserData struct {
 		index   int
 		textPos int
 	}
+	codeOverflow bool // 指令数超过上限(8192)，有指令被丢弃；Parse 据此报错而不是执行残缺的程序
 }
 
 type BufferSpan struct {
@@ -98,6 +99,7 @@ func (e *ParserData) checkStackOverflow() bool {
 
 func (e *ParserData) WriteCode(T CodeType, value any) {
 	if e.checkStackOverflow() {
+		e.codeOverflow = true
 		return
 	}
 
